@@ -216,7 +216,12 @@ class parameters:
                     
                 # here if float and int worked
                 # should not be needed, depends on int valueerror
-                if abs(vi - vf) < 1e-9:
+                try:
+                    is_int = abs(vi - vf) < 1e-9
+                except OverflowError:
+                    # too large for a float (vf is inf): it really is an int
+                    is_int = True
+                if is_int:
                     # use int
                     self.parameters[name] = vi
                     continue
